@@ -324,6 +324,17 @@ def roundtrip_after_change(rep, repo, mod, cls, kw):
         pe.getattr(q, "update_qnoise_factor"), [F(1, 4)], {})))
     changes.append(("update_qnoise_factor(0)", lambda pe, q: pe.call(
         pe.getattr(q, "update_qnoise_factor"), [F(0)], {})))
+  if cls == "quantized_linear":
+    # its constructor documents alpha, symmetric and qnoise_factor as
+    # modifiable attributes
+    def setter(name, val):
+      return lambda pe, q: q.attrs.__setitem__(name, val)
+    changes += [("q.alpha = 2", setter("alpha", F(2))),
+                ("q.alpha = None", setter("alpha", None)),
+                ("q.alpha = 'auto'", setter("alpha", "auto")),
+                ("q.symmetric = 0", setter("symmetric", 0)),
+                ("q.symmetric = True", setter("symmetric", True)),
+                ("q.qnoise_factor = 1/2", setter("qnoise_factor", F(1, 2)))]
   n = 0
   for label, change in changes:
     cfg = "%s(%s) after %s" % (cls, show_kw(kw), label)
@@ -484,6 +495,9 @@ def run(rep, repo, tier):
     if "alpha" in params:
       nchanged += roundtrip_after_change(rep, repo, mod, cls,
                                          dict(base, alpha=None))
+      if cls == "quantized_linear":
+        nchanged += roundtrip_after_change(rep, repo, mod, cls,
+                                           dict(base, alpha=F(3)))
     rep.extra["roundtrips_after_change"] = rep.extra.get(
         "roundtrips_after_change", 0) + nchanged
     for p, vals in sorted(alts.items()):
